@@ -190,6 +190,19 @@ def run(repo, rep, tier):
                         isinstance(t.ops[0], ast.NotEq) and not pol
                     if elem and is_eq and key in by_elem.get(elem, ()):
                         return True
+                # a helper that performs the element-name test on its first
+                # argument: _is_element_node(EXPR, 'ERROR')
+                if pol and isinstance(t, ast.Call) and len(t.args) == 2 and \
+                        const_str(t.args[1]) is not None and \
+                        norm(alias_expand(func, t.args[0])) == bt:
+                    h = repo.func_opt(OPS, dotted(t.func) or '')
+                    if h is not None and len(h.params) == 2 and any(
+                            isinstance(c_, ast.Compare) and
+                            norm(c_) == '%s[0] == %s' % (h.params[0],
+                                                         h.params[1])
+                            for c_ in ast.walk(h.node)):
+                        if key in by_elem.get(const_str(t.args[1]), ()):
+                            return True
                 # `a and b[0][0] == 'ERROR'` conjunct facts
                 if isinstance(t, ast.BoolOp) and isinstance(t.op, ast.And) \
                         and pol:
@@ -737,6 +750,7 @@ def run(repo, rep, tier):
 
     _r2_shapes(repo, rep, ops, conn)
     _r4b_type_guard(repo, rep)
+    _r2c_tag_confusion(repo, rep)
     r7 = rep.rule('C02.R7', 'error messages on the reply path can be built '
                   '(constant, well-formed format templates)')
     from ..guards import run_format_rule
@@ -903,3 +917,126 @@ def _r4b_type_guard(repo, rep):
                         '&#10;": `$` also matches before a trailing '
                         'newline)' % (pat, ', '.join(repr(x)
                                                      for x in bad[:3])))
+
+
+def _r2c_tag_confusion(repo, rep):
+    """C02.R2c: element tuples and output-parameter tuples share a list.
+
+    parse_imethodresponse / parse_methodresponse collect their children with
+    list_of_various(..., ('ERROR', 'IRETURNVALUE' | 'RETURNVALUE',
+    'PARAMVALUE')).  The element children are tuples (element name, attrs
+    dict, children); parse_paramvalue returns (NAME attribute, paramtype,
+    value) - a tuple of the same length whose first item is chosen by the
+    server.  A test `node[0] == '<element name>'` therefore also holds for a
+    PARAMVALUE of that name, whose [1] is not a dict and whose [2] is not a
+    child list.  Every such test in the client must be paired with a test
+    that [1] is the attribute dictionary."""
+    r = rep.rule('C02.R2c', 'element-name tests on response children also '
+                 'exclude PARAMVALUE tuples of the same name')
+    tp = repo.cls(TP, 'TupleParser')
+    pv = tp.methods.get('parse_paramvalue')
+    if pv is None:
+        raise AnalysisError('parse_paramvalue vanished')
+    # is the first item of parse_paramvalue's tuple an attribute value?
+    named = any(isinstance(n, ast.Return) and isinstance(n.value, ast.Tuple)
+                and len(n.value.elts) == 3 and
+                isinstance(n.value.elts[0], ast.Subscript) and
+                const_str(n.value.elts[0].slice) == 'NAME'
+                for n in walk_no_nested(pv.node))
+    ambiguous = set()
+    for mname in ('parse_imethodresponse', 'parse_methodresponse'):
+        m = tp.methods.get(mname)
+        if m is None:
+            raise AnalysisError(mname + ' vanished')
+        for c in walk_no_nested(m.node):
+            if isinstance(c, ast.Call) and \
+                    (dotted(c.func) or '').startswith('self.list_of_') and \
+                    len(c.args) > 1:
+                try:
+                    names = set(fold_const(c.args[1]))
+                except (NotConst, TypeError):
+                    continue
+                if 'PARAMVALUE' in names:
+                    ambiguous |= names - {'PARAMVALUE'}
+    if not named or not ambiguous:
+        r.notes.append('PARAMVALUE tuples no longer share a list / a shape '
+                       'with element tuples: nothing to check')
+        r.sites = 1
+        r.ob(True, 'no-ambiguity')
+        return
+    mod = repo.module(OPS)
+    from ..cfg import stmt_facts, expr_guards
+    for f in mod.all_funcs():
+        txt = norm(f.node, 20000)
+        if "'EXPMETHODRESPONSE'" in txt and "'IMETHODRESPONSE'" not in txt:
+            continue      # export responses have no PARAMVALUE children
+        facts = None
+        for n in walk_no_nested(f.node):
+            if not (isinstance(n, ast.Compare) and len(n.ops) == 1 and
+                    isinstance(n.ops[0], (ast.Eq, ast.NotEq)) and
+                    isinstance(n.left, ast.Subscript) and
+                    isinstance(n.left.slice, ast.Constant) and
+                    n.left.slice.value == 0):
+                continue
+            rhs = n.comparators[0]
+            tag = const_str(rhs)
+            param_tag = isinstance(rhs, ast.Name) and rhs.id in f.params
+            if tag not in ambiguous and not param_tag:
+                continue
+            node_txt = norm(n.left.value)
+            r.sites += 1
+            r.functions.add(f.fq)
+            want = 'isinstance(%s[1], dict)' % node_txt
+            # the dict test is a sibling conjunct, or a fact that dominates
+            ok = False
+            for b in ast.walk(f.node):
+                if isinstance(b, ast.BoolOp) and isinstance(b.op, ast.And) \
+                        and any(v is n for v in b.values) and \
+                        any(norm(v) == want for v in b.values):
+                    ok = True
+            if not ok:
+                if facts is None:
+                    facts = stmt_facts(f.node)
+                for st, (fs, _) in facts.items():
+                    if any(x is n for x in ast.walk(st)) and \
+                            any(pol and norm(t) == want for t, pol in fs):
+                        ok = True
+            if param_tag and not ok:
+                # a helper comparing with a parameter is only judged when it
+                # is used for the ambiguous names
+                used = any(
+                    isinstance(c, ast.Call) and dotted(c.func) == f.name and
+                    any(const_str(a) in ambiguous for a in c.args)
+                    for g in mod.all_funcs() for c in walk_no_nested(g.node))
+                if not used:
+                    r.sites -= 1
+                    continue
+            r.ob(ok, '%s|%s' % (f.qualname, norm(n)),
+                 {'function': f.qualname, 'test': norm(n),
+                  'paired_with': want if ok else None})
+            if not ok:
+                rep.finding(r, f.qualname, norm(n), 'tag-confusion', OPS,
+                            n.lineno,
+                            'a response child is recognised as the <%s> '
+                            'element by its first item alone, but a '
+                            '<PARAMVALUE NAME="%s"> is a tuple of the same '
+                            'length with that first item: its [1] is not the '
+                            'attribute dictionary and its [2] not a child '
+                            'list, so the code that follows raises TypeError '
+                            '(or iterates None) instead of a pywbem.Error'
+                            % (tag or 'element', tag or '...'))
+    # uses of a checked helper (a function whose own comparison was judged
+    # above) with one of the ambiguous names count as discharged sites
+    helpers = {f.name for f in mod.all_funcs()
+               if any(k.startswith(f.qualname + '|') for k in r.nontrivial)
+               and f.cls is None}
+    for g in mod.all_funcs():
+        for c in walk_no_nested(g.node):
+            if isinstance(c, ast.Call) and dotted(c.func) in helpers and \
+                    any(const_str(a) in ambiguous for a in c.args):
+                r.sites += 1
+                r.ob(True, '%s|%s' % (g.qualname, norm(c, 60)),
+                     {'function': g.qualname, 'uses_helper': norm(c, 60)})
+    if r.sites < 3:
+        raise AnalysisError('only %d element-name tests on response '
+                            'children found' % r.sites)
